@@ -161,3 +161,48 @@ Proof.
   intros [q [[p n] oe]] _. unfold txnz_dec, txnz_enc, pk. cbn [fst snd].
   destruct q, p, n, oe; reflexivity.
 Qed.
+
+(* ---- facts used by the per-run corollaries ---- *)
+From LunaLib Require Import Machine.
+
+(* the ghost input copy does not influence the transmit machine *)
+Lemma run_txg : forall tr s g, run (txg_step 8) (s, g) tr = run (tx_step 8) s tr.
+Proof.
+  induction tr as [|i tr IH]; intros s g; [reflexivity|]. cbn [run]. unfold txg_step at 1. cbn [fst].
+  destruct (tx_step 8 s i) as [s' o]. rewrite IH. reflexivity.
+Qed.
+
+Definition opmode_ok (i o : N) : bool := match opmode_mon 0 i o with Some (_, ok) => ok | None => true end.
+
+(* the model meets the operating-mode clause in every state, for every input word *)
+Lemma tx_step_opmode : forall s i, opmode_ok i (snd (tx_step 8 s i)) = true.
+Proof.
+  intros s i. unfold opmode_ok, opmode_mon, tx_step. cbn [snd].
+  set (data := bits i 0 8). set (v := bits i 8 1). set (mode := bits i 9 2).
+  assert (Hv : v = 0 \/ v = 1).
+  { subst v. unfold bits. rewrite N.land_ones. change (2 ^ 1) with 2. pose proof (N.mod_lt (N.shiftr i 8) 2 ltac:(discriminate)). lia. }
+  assert (Hm : mode = 0 \/ mode = 1 \/ mode = 2 \/ mode = 3).
+  { subst mode. unfold bits. rewrite N.land_ones. change (2 ^ 2) with 4. pose proof (N.mod_lt (N.shiftr i 9) 4 ltac:(discriminate)). lia. }
+  assert (Hd0 : bits i 0 1 = b2n (bit0 data)).
+  { assert (E1 : bits i 0 1 = i mod 2) by (unfold bits; rewrite N.shiftr_0_r, N.land_ones; reflexivity).
+    assert (E2 : bit0 data = N.testbit i 0).
+    { subst data. unfold bit0, bits. rewrite N.shiftr_0_r, N.land_ones, <- N.bit0_odd. apply N.mod_pow2_bits_low. lia. }
+    rewrite E1, E2, <- N.bit0_mod. destruct (N.testbit i 0); reflexivity. }
+  destruct Hm as [-> | [-> | [-> | ->]]]; cbn [N.eqb orb].
+  - (* normal *)
+    unfold tx_out. set (oe := c_oe (x_io s)).
+    assert (E : bits (b2n (c_p (x_io s)) + 2 * b2n (c_n (x_io s)) + 4 * b2n oe + 8 * b2n oe + 16 * b2n (u_ready (x_u s) (true && nb v))) 2 1
+              = bits (b2n (c_p (x_io s)) + 2 * b2n (c_n (x_io s)) + 4 * b2n oe + 8 * b2n oe + 16 * b2n (u_ready (x_u s) (true && nb v))) 3 1).
+    { destruct (c_p (x_io s)), (c_n (x_io s)), oe, (u_ready (x_u s) (true && nb v)); reflexivity. }
+    cbn [Pos.eqb]. rewrite E, N.eqb_refl. reflexivity.
+  - reflexivity.
+  - (* bit-stuffing and NRZI disabled *)
+    rewrite Hd0. destruct Hv as [Ev | Ev]; rewrite Ev; unfold nb; cbn [N.eqb negb]; destruct (bit0 data); reflexivity.
+  - reflexivity.
+Qed.
+
+Lemma run_opmode : forall tr s, Forall2 (fun i o => opmode_ok i o = true) tr (run (tx_step 8) s tr).
+Proof.
+  induction tr as [|i tr IH]; intro s; [constructor|]. cbn [run].
+  pose proof (tx_step_opmode s i) as H. destruct (tx_step 8 s i) as [s' o]. constructor; [exact H | apply IH].
+Qed.
